@@ -191,6 +191,63 @@ func factgenMain(args []string) {
 			handlers = append(handlers, h)
 		}
 	}
+	// the dispatcher's handler table: every command name the emulator serves
+	cmdNames := map[string]bool{}
+	for _, af := range parsed {
+		for _, d := range af.Decls {
+			gd, ok := d.(*ast.GenDecl)
+			if !ok {
+				continue
+			}
+			for _, sp := range gd.Specs {
+				vs, ok := sp.(*ast.ValueSpec)
+				if !ok || len(vs.Names) != 1 || vs.Names[0].Name != "handlerTable" || len(vs.Values) != 1 {
+					continue
+				}
+				cl, ok := vs.Values[0].(*ast.CompositeLit)
+				if !ok {
+					continue
+				}
+				for _, e := range cl.Elts {
+					kv, ok := e.(*ast.KeyValueExpr)
+					if !ok {
+						continue
+					}
+					if bl, ok := kv.Key.(*ast.BasicLit); ok && bl.Kind == token.STRING {
+						name := strings.Trim(bl.Value, "\"`")
+						if i := strings.Index(name, "|"); i >= 0 {
+							name = name[:i]
+						}
+						cmdNames[name] = true
+					}
+				}
+			}
+		}
+	}
+	if out != "" {
+		var names []string
+		for n := range cmdNames {
+			names = append(names, n)
+		}
+		sort.Strings(names)
+		var cb strings.Builder
+		cb.WriteString("(* CmdFacts.v — GENERATED by `harness factgen` from /repo (cmdDispatcher.go: handlerTable) on every run. Do not edit. *)\n")
+		cb.WriteString("From Coq Require Import String List.\nImport ListNotations.\nOpen Scope string_scope.\n\n")
+		cb.WriteString("(* every command name of the dispatcher's handler table (sub-commands folded into their command) *)\n")
+		cb.WriteString("Definition go_commands : list string := [\n")
+		for i, n := range names {
+			sep := ";"
+			if i == len(names)-1 {
+				sep = ""
+			}
+			fmt.Fprintf(&cb, "  %q%s\n", n, sep)
+		}
+		cb.WriteString("].\n")
+		cpath := filepath.Join(filepath.Dir(out), "CmdFacts.v")
+		if old, err := os.ReadFile(cpath); err != nil || string(old) != cb.String() {
+			os.WriteFile(cpath, []byte(cb.String()), 0o644)
+		}
+	}
 	sort.Slice(methods, func(i, j int) bool { return methods[i].Name < methods[j].Name })
 	sort.Slice(handlers, func(i, j int) bool { return handlers[i].Name < handlers[j].Name })
 	var sb strings.Builder
